@@ -6,6 +6,8 @@ The encoders of `encode.rs` on top of the bit-buffer law: for every payload of t
 import FastQr.Proofs.CompactSound
 import FastQr.Props.C09
 import FastQr.Model.Encode
+import FastQr.Props.C05
+import FastQr.Props.C02
 
 namespace FastQr.Proofs.EncodeSound
 open FastQr Model Model.Compact Spec Proofs.CompactSound
@@ -353,5 +355,184 @@ theorem encodeByte_spec (c : Compact) (inp : List Nat) (cci B : Nat) (hd : Bytes
     increaseLen_noop _ _ (by rw [l2, s2]; omega)
   simp only [encodeByte, bind, Chk.bind', pushU8Slice, hnoop]
   exact ⟨by simp [t1, t2, t3], (a1.trans a2).trans a3⟩
+
+/-! ### the whole `encode::encode` -/
+
+theorem toBits_zero (w : Nat) : Bitstream.toBits w 0 = List.replicate w false := by
+  apply List.ext_getElem
+  · simp [Bitstream.toBits]
+  · intro i h1 h2
+    simp [Bitstream.toBits]
+
+theorem fromVersion_inv (v : Nat) : Inv (Compact.fromVersion v) := by
+  constructor
+  · intro k
+    simp only [Compact.fromVersion, Array.getD_eq_getD_getElem?, Array.getElem?_replicate]
+    split <;> simp
+  · intro i _
+    simp only [bit, Compact.fromVersion, Array.getD_eq_getD_getElem?, Array.getElem?_replicate]
+    split <;> simp
+
+/-- the pad bytes `fill` pushes -/
+def padByte (i : Nat) : Nat := if i % 2 == 0 then T.padBytes.1 else T.padBytes.2
+
+theorem padByte_lt (i : Nat) : padByte i < 256 := by
+  have := Props.C06.C06_pad_bytes
+  simp only [padByte, this]
+  split <;> decide
+
+theorem fill_spec (c : Compact) (hinv : Inv c) (hal : c.len % 8 = 0) (B : Nat)
+    (hlen : c.len + 8 * ((c.data.size - c.len + 7) / 8) ≤ B) (hB : B / 8 + 1 < c.data.size) :
+    (fill c).traps = [] ∧
+    AppL c (fill c).val (((List.range ((c.data.size - c.len + 7) / 8)).map padByte).flatMap (Bitstream.toBits 8)) := by
+  have hg : (c.len % 8 == 0) = true := by simp [hal]
+  have h := u8s_spec B ((List.range ((c.data.size - c.len + 7) / 8)).map padByte)
+    (by intro x hx; simp only [List.mem_map] at hx; obtain ⟨i, _, rfl⟩ := hx; exact padByte_lt i)
+    c hinv (by simpa using hlen) hB
+  simp only [List.foldlM_map] at h
+  simp only [fill, hg, Chk.guard, if_true, bind, Chk.bind', List.nil_append]
+  exact h
+
+theorem digitsBits_length : ∀ (inp : List Nat), (Bitstream.digitsBits inp).length = payloadBits .numeric inp.length
+  | [] => rfl
+  | [_] => by simp [Bitstream.digitsBits, payloadBits, toBits_length]
+  | [_, _] => by simp [Bitstream.digitsBits, payloadBits, toBits_length]
+  | _ :: _ :: _ :: rest => by
+    have ih := digitsBits_length rest
+    simp only [payloadBits] at ih ⊢
+    simp only [Bitstream.digitsBits, List.length_append, toBits_length, ih, List.length_cons]
+    have e1 : (rest.length + 1 + 1 + 1) / 3 = rest.length / 3 + 1 := by omega
+    have e2 : (rest.length + 1 + 1 + 1) % 3 = rest.length % 3 := by omega
+    simp only [e1, e2]; omega
+
+theorem alnumBits_length : ∀ (inp : List Nat), (Bitstream.alnumBits inp).length = payloadBits .alnum inp.length
+  | [] => rfl
+  | [_] => by simp [Bitstream.alnumBits, payloadBits, toBits_length]
+  | _ :: _ :: rest => by
+    have ih := alnumBits_length rest
+    simp only [payloadBits] at ih ⊢
+    simp only [Bitstream.alnumBits, List.length_append, toBits_length, ih, List.length_cons]
+    omega
+
+theorem bytesBits_length (inp : List Nat) : (inp.flatMap (Bitstream.toBits 8)).length = 8 * inp.length := by
+  induction inp with
+  | nil => rfl
+  | cons x xs ih => simp only [List.flatMap_cons, List.length_append, toBits_length, ih, List.length_cons]; omega
+
+theorem segment_length (m : Mode) (v : Nat) (inp : List Nat) :
+    (Bitstream.segment m v inp).length = 4 + Spec.cciBits m v + payloadBits m inp.length := by
+  simp only [Bitstream.segment, List.length_append, toBits_length]
+  cases m <;> simp only [Bitstream.payload, digitsBits_length, alnumBits_length, bytesBits_length, payloadBits]
+
+/-- terminator length, bit padding length and number of pad codewords `fill` pushes -/
+def termLen (l : ECL) (v seg : Nat) : Nat := min (T.dataBits l v - seg) 4
+def padLen (l : ECL) (v seg : Nat) : Nat := (8 - (seg + termLen l v seg) % 8) % 8
+def padCount (l : ECL) (v seg : Nat) : Nat := (T.maxBytes v * 8 - (seg + termLen l v seg + padLen l v seg) + 7) / 8
+
+/-- everything `encode` appends to the empty buffer: segment, terminator, bit padding, pad codewords -/
+theorem encode_bits (inp : List Nat) (l : ECL) (m : Mode) (v : Nat) (hv : v < 40)
+    (hb : Spec.IsBytes inp) (halpha : Spec.alphabetOK m inp = true) (hfit : Spec.fits m l v inp.length = true) :
+    (encode inp l m v).traps = [] ∧
+    bitsOf (encode inp l m v).val =
+      Bitstream.segment m v inp ++ List.replicate (termLen l v (Bitstream.segment m v inp).length) false ++
+        List.replicate (padLen l v (Bitstream.segment m v inp).length) false ++
+        ((List.range (padCount l v (Bitstream.segment m v inp).length)).map padByte).flatMap (Bitstream.toBits 8) ∧
+    (encode inp l m v).val.data.size = T.maxBytes v * 8 ∧ Inv (encode inp l m v).val ∧
+    (Bitstream.segment m v inp).length ≤ T.dataBits l v := by
+  generalize hseg0 : Bitstream.segment m v inp = seg
+  generalize ht0 : termLen l v seg.length = t
+  generalize hp0 : padLen l v seg.length = p
+  generalize hn0 : padCount l v seg.length = n
+  have htdef : t = min (T.dataBits l v - seg.length) 4 := by rw [← ht0]; rfl
+  have hpdef : p = (8 - (seg.length + t) % 8) % 8 := by rw [← hp0, ← ht0]; rfl
+  have hndef : n = (T.maxBytes v * 8 - (seg.length + t + p) + 7) / 8 := by rw [← hn0, ← hp0, ← ht0]; rfl
+  obtain ⟨hdb, hdc, hcci⟩ := Props.C05.C05_tables hv l m
+  have hlay := Props.C02.C02_layout hv l
+  -- sizes
+  have hfit' : 4 + T.cciBits m v + payloadBits m inp.length ≤ T.dataBits l v := by
+    simp only [Spec.fits, decide_eq_true_eq] at hfit
+    rw [hcci, hdb]; exact hfit
+  have hcci16 : T.cciBits m v ≤ 16 := Props.C06.C06_widths hv m
+  have hmb : T.dataCodewords l v ≤ T.maxBytes v := by rw [hlay.2.2.2.2.2.2]; omega
+  have hdbits : T.dataBits l v = T.dataCodewords l v * 8 := by rw [hdb, hdc]
+  have hB : (T.maxBytes v * 8 + 8) / 8 + 1 < (Compact.fromVersion v).data.size := by
+    simp only [Compact.fromVersion, Array.size_replicate]
+    have : T.maxBytes v ≥ 1 := by omega
+    omega
+  have hinv0 := fromVersion_inv v
+  have hlen0 : (Compact.fromVersion v).len = 0 := rfl
+  -- the segment
+  have hseg : ∃ c1 : Chk Compact, c1 = (match m with
+      | .numeric => encodeNumeric (Compact.fromVersion v) inp (T.cciBits m v)
+      | .alnum => encodeAlnum (Compact.fromVersion v) inp (T.cciBits m v)
+      | .byte => encodeByte (Compact.fromVersion v) inp (T.cciBits m v)) ∧
+      c1.traps = [] ∧ AppL (Compact.fromVersion v) c1.val seg := by
+    refine ⟨_, rfl, ?_⟩
+    cases m with
+    | numeric =>
+      have hd : Digits inp := fun x hx => ⟨hb x hx, by
+        simp only [Spec.alphabetOK, List.all_eq_true] at halpha; exact halpha x hx⟩
+      have := encodeNumeric_spec (Compact.fromVersion v) inp (T.cciBits .numeric v) (T.maxBytes v * 8 + 8) hd hinv0
+        hcci16 (by rw [hlen0]; omega) hB
+      simpa [← hseg0, Bitstream.segment, Bitstream.modeIndicator, Bitstream.payload, hcci] using this
+    | alnum =>
+      have hd : Alnums inp := fun x hx => ⟨hb x hx, by
+        simp only [Spec.alphabetOK, List.all_eq_true] at halpha; exact halpha x hx⟩
+      have := encodeAlnum_spec (Compact.fromVersion v) inp (T.cciBits .alnum v) (T.maxBytes v * 8 + 8) hd hinv0
+        hcci16 (by rw [hlen0]; omega) hB
+      simpa [← hseg0, Bitstream.segment, Bitstream.modeIndicator, Bitstream.payload, hcci] using this
+    | byte =>
+      have := encodeByte_spec (Compact.fromVersion v) inp (T.cciBits .byte v) (T.maxBytes v * 8 + 8) hb hinv0
+        hcci16 (by rw [hlen0]; omega) hB
+      simpa [← hseg0, Bitstream.segment, Bitstream.modeIndicator, Bitstream.payload, hcci] using this
+  obtain ⟨c1, hc1, t1, a1⟩ := hseg
+  have hseglen : seg.length = 4 + T.cciBits m v + payloadBits m inp.length := by
+    rw [hcci, ← hseg0]; exact segment_length m v inp
+  have l1 := appL_len a1
+  rw [hlen0, Nat.zero_add] at l1
+  have s1 := appL_size a1
+  have hsz : (Compact.fromVersion v).data.size = T.maxBytes v * 8 := by simp [Compact.fromVersion]
+  -- terminator
+  have hsub : Chk.sub 134 (T.dataBits l v) c1.val.len = ⟨T.dataBits l v - seg.length, []⟩ := by
+    simp [Chk.sub, l1]; omega
+  obtain ⟨t2, a2⟩ := pushBits_appL c1.val 0 t (appL_inv a1) (by omega)
+    (by rw [l1, s1, hsz]; omega)
+  rw [toBits_zero] at a2
+  have l2 := appL_len a2
+  rw [List.length_replicate, l1] at l2
+  have s2 := (appL_size a2).trans s1
+  -- bit padding
+  obtain ⟨t3, a3⟩ := pushBits_appL (pushBits c1.val 0 t).val 0 p (appL_inv a2) (by omega)
+    (by rw [l2, s2, hsz]; omega)
+  rw [toBits_zero] at a3
+  have l3 := appL_len a3
+  rw [List.length_replicate, l2] at l3
+  have s3 := (appL_size a3).trans s2
+  have hal3 : (pushBits (pushBits c1.val 0 t).val 0 p).val.len % 8 = 0 := by
+    rw [l3]; omega
+  -- pad codewords
+  obtain ⟨t4, a4⟩ := fill_spec (pushBits (pushBits c1.val 0 t).val 0 p).val (appL_inv a3) hal3 (T.maxBytes v * 8 + 8)
+    (by rw [l3, s3, hsz]; omega) (by rw [s3]; exact hB)
+  have hn : ((pushBits (pushBits c1.val 0 t).val 0 p).val.data.size -
+      (pushBits (pushBits c1.val 0 t).val 0 p).val.len + 7) / 8 = n := by
+    rw [s3, hsz, l3, hndef]
+  rw [hn] at a4
+  -- assemble
+  have hform : encode inp l m v = c1 >>= fun c => addTerminator c (T.dataBits l v) >>= fun c => padTo8 c >>= fun c => fill c := by
+    rw [hc1]; cases m <;> rfl
+  have hsub' : Chk.sub 134 (T.dataBits l v) c1.val.len = ⟨T.dataBits l v - seg.length, []⟩ := hsub
+  have hval : (encode inp l m v).val = (fill (pushBits (pushBits c1.val 0 t).val 0 p).val).val := by
+    rw [hform]
+    simp only [Chk.val_bind, addTerminator, hsub', padTo8, ← htdef, l2, ← hpdef]
+  have htraps : (encode inp l m v).traps = [] := by
+    rw [hform]
+    simp only [Chk.traps_bind, Chk.val_bind, addTerminator, hsub', padTo8, ← htdef, l2, ← hpdef, t1, t2, t3, t4,
+      List.nil_append]
+  have hall := ((a1.trans a2).trans a3).trans a4
+  refine ⟨htraps, ?_, ?_, ?_, by omega⟩
+  · rw [hval, hall.bits]
+    simp [bitsOf, hlen0]
+  · rw [hval, appL_size a4, s3, hsz]
+  · rw [hval]; exact appL_inv a4
 
 end FastQr.Proofs.EncodeSound
